@@ -15,6 +15,7 @@ mod fam_oracle;
 mod fam_health;
 mod fam_tx;
 mod fam_xfer;
+mod fam_world;
 mod fam_ixf;
 mod fam_gate;
 mod fam_integr;
@@ -78,7 +79,7 @@ fn main() {
             // A panic INSIDE a generator (not in the code under test, whose panics are caught per case and are outcomes)
             // must not kill the run for one unlucky seed: keep what was produced, continue with the advanced PRNG state.
             // More than 25 such panics means something systematic: the process then fails as before.
-            let known = ["fx", "wrapper", "bank", "curve", "integr", "tokenfee", "bankstate", "signer", "admin", "account", "fees", "tx", "bkr", "xfer", "ixf", "liqix", "cfgix", "liteix", "liq", "oracle", "health", "panic", "venue"];
+            let known = ["fx", "wrapper", "bank", "curve", "integr", "tokenfee", "bankstate", "signer", "admin", "account", "fees", "tx", "bkr", "xfer", "ixf", "liqix", "cfgix", "liteix", "liq", "oracle", "health", "panic", "venue", "world"];
             if !known.contains(&fam) {
                 eprintln!("unknown family {}", fam);
                 std::process::exit(2);
@@ -111,6 +112,7 @@ fn main() {
                 "health" => fam_health::gen(&mut rng, want, &mut part),
                 "panic" => fam_panic::gen(&mut rng, want, &mut part),
                 "venue" => mon_kamino::gen(&mut rng, want, &mut part),
+                "world" => fam_world::gen(&mut rng, want, &mut part),
                     _ => unreachable!(),
                 }));
                 let produced = part.len();
